@@ -176,7 +176,7 @@ def run(tier):
         cases.append({"text": a + [10] + b + [10] + a + [10], "lits": LITS})
     v.notes["gen_files"] = len(cases)
     validate(v, wd, "gen", cases)
-    cases = [{"text": cps(random_file(r_)), "lits": LITS} for _ in range(3000 if tier == "quick" else 60000)]
+    cases = [{"text": cps(random_file(r_)), "lits": LITS} for _ in range(3000 if tier == "quick" else 25000)]
     validate(v, wd, "tv", cases)
     # the three converter binaries on a sample (htoh normalises, htoz converts, ztoh converts back)
     v.distinct = v.evaluations
